@@ -312,7 +312,8 @@ impl ConsumeUnverifiedBlockProcessor {
             &epoch.last_block_hash_in_previous_epoch(),
         )?;
         if new_epoch {
-            db_txn.insert_epoch_ext(&epoch.last_block_hash_in_previous_epoch(), &epoch)?;
+            // the epoch number index is only updated for main chain blocks, see below
+            db_txn.insert_epoch_ext_record(&epoch.last_block_hash_in_previous_epoch(), &epoch)?;
         }
 
         let in_ibd = self.shared.is_initial_block_download();
@@ -336,6 +337,16 @@ impl ConsumeUnverifiedBlockProcessor {
                 "reconcile_main_chain cost {:?}",
                 begin_reconcile_main_chain.elapsed()
             );
+
+            // point the epoch number index at the epochs of the new main chain
+            for attached in fork.attached_blocks() {
+                if let Some(index) = db_txn.get_block_epoch_index(&attached.hash())
+                    && let Some(attached_epoch) = db_txn.get_epoch_ext(&index)
+                    && attached_epoch.start_number() == attached.number()
+                {
+                    db_txn.insert_epoch_index(attached_epoch.number(), &index)?;
+                }
+            }
 
             db_txn.insert_tip_header(&block.header())?;
             if new_epoch || fork.has_detached() {
